@@ -422,9 +422,77 @@ def check_dim_domain(env: Env, name):
     return status, None
 
 
+def onnx_elem_spelling(env: Env, code):
+    """The numpy dtype onnx itself associates with an element code (str for STRING); None if it has none."""
+    onnx = env.onnx
+    if code == int(onnx.TensorProto.STRING):
+        return str
+    try:
+        return onnx.helper.tensor_dtype_to_np_dtype(code)
+    except Exception:  # noqa: BLE001
+        return None
+
+
+def check_elem_code(env: Env, code):
+    """One ONNX element type: the spox type spelled with onnx's own dtype for it goes to THAT element code
+    and comes back equal; Cast(to=that dtype) is typed with it where the operator allows. -> None | (key, what)"""
+    name = {int(v): k for k, v in env.onnx.TensorProto.DataType.items()}.get(code, str(code))
+    sp = onnx_elem_spelling(env, code)
+    if sp is None:
+        return None
+    try:
+        t = env.ts.Tensor(sp, (2,))
+    except Exception as e:  # noqa: BLE001
+        return (f"defined-refused:{name}", f"Tensor({sp!r}) is refused ({type(e).__name__}) although ONNX defines {name}")
+    try:
+        p = internal(t, "_to_onnx")()
+        got = int(p.tensor_type.elem_type)
+    except NotObservable:
+        raise
+    except Exception as e:  # noqa: BLE001
+        return (f"roundtrip:raises", f"{t!r}: {type(e).__name__}: {e}")
+    if got != code:
+        return (f"elem-type-changed:{name}", f"Tensor({sp!r}) = {t!r} converts to ONNX element type "
+                                             f"{ {int(v): k for k, v in env.onnx.TensorProto.DataType.items()}.get(got, got)}, not {name}")
+    if t.dtype != env.np.dtype(sp):
+        return (f"elem-type-changed:{name}", f"Tensor({sp!r}).dtype is {t.dtype!r}")
+    import spox.opset.ai.onnx.v17 as op
+    from spox import argument
+
+    try:
+        with warnings.catch_warnings():
+            warnings.simplefilter("ignore")
+            y = op.cast(argument(env.ts.Tensor(env.np.float32, (2,))), to=sp)
+        if y.type is not None and y.type.dtype != env.np.dtype(sp):
+            return (f"cast-typed-differently:{name}", f"cast(x, to={sp!r}) is typed {y.type!r}")
+    except Exception:  # noqa: BLE001  (element types the operator's opset does not know are not a verdict)
+        pass
+    return None
+
+
+def check_elem_distinct(env: Env, c1, c2):
+    """Two different ONNX element types must give unequal, mutually incompatible spox types."""
+    names = {int(v): k for k, v in env.onnx.TensorProto.DataType.items()}
+    try:
+        a = env.ts.Tensor(onnx_elem_spelling(env, c1), (2,))
+        b = env.ts.Tensor(onnx_elem_spelling(env, c2), (2,))
+    except Exception:  # noqa: BLE001
+        return None
+    compatible = False
+    if hasattr(a, "_subtype"):
+        compatible = bool(a._subtype(b)) or bool(b._subtype(a))
+    if a == b or compatible:
+        return (f"distinct-elem-types-collapse:{names.get(c1, c1)}/{names.get(c2, c2)}",
+                f"{names.get(c1, c1)} and {names.get(c2, c2)} are different ONNX element types but Tensor(...) gives {a!r} and {b!r}: "
+                f"equal={a == b} compatible={compatible}")
+    return None
+
+
 CHECKS = {
     "roundtrip": lambda env, c: check_roundtrip(env, c["type"]),
     "roundtrip_public": lambda env, c: check_roundtrip_public(env, c["type"]),
+    "elem_code": lambda env, c: check_elem_code(env, c["code"]),
+    "elem_distinct": lambda env, c: check_elem_distinct(env, c["c1"], c["c2"]),
     "dim_domain": lambda env, c: check_dim_domain(env, c["probe"])[1],
     "spelling": lambda env, c: check_spelling_pair(env, c["s1"], c["s2"], None if c["shape"] is None else tuple(c["shape"])),
     "refusal": lambda env, c: check_refusal(env, c["name"], c["defined"]),
@@ -544,6 +612,31 @@ def run(ck: core.Check):
             ck.broken("generator", "C13 spelling table", f"only {len(by_code)} accepted element types")
 
     guard("element-type spellings", facet_spellings)
+
+    def facet_elem_codes():
+        """every element type the installed onnx defines (incl. bfloat16, float8*, float4, 4/2-bit ints)"""
+        codes = sorted(int(v) for k, v in env.onnx.TensorProto.DataType.items() if k != "UNDEFINED")
+        usable = []
+        for c in codes:
+            if onnx_elem_spelling(env, c) is None:
+                continue
+            usable.append(c)
+            bad = check_elem_code(env, c)
+            ck.count(("elem-code", c))
+            if bad:
+                ck.failure(bad[0], bad[1], {"check": "elem_code", "code": c})
+        n_pairs = 0
+        for c1, c2 in itertools.combinations(usable, 2):
+            bad = check_elem_distinct(env, c1, c2)
+            n_pairs += 1
+            if bad:
+                ck.failure(bad[0], bad[1], {"check": "elem_distinct", "c1": c1, "c2": c2})
+        ck.count(None, n_pairs)
+        ck.cov["onnx_element_types"] = {"codes": len(usable), "distinct_pairs": n_pairs}
+        if len(usable) < 16:
+            ck.broken("generator", "C13 ONNX element types", f"only {len(usable)} element types have a numpy dtype in this onnx")
+
+    guard("ONNX element types (distinctness)", facet_elem_codes)
 
     # ---------------------------------------------------------------- ONNX round trip (anchored methods, then public path)
     def facet_roundtrip():
